@@ -344,6 +344,7 @@ def stepL (s : State) : HStep → Except Err (State × HOut)
     | .error e => .error e
     | .ok (s', evs) => .ok (s', .events evs)
   | .send _ d => .ok (s, .delivered (routerLookup s d))
+  | .sendBus _ => .ok (s, .delivered none)      -- `if not msg.destination == 'org.freedesktop.DBus': self.sendMessage(msg)`
   | .ask c d =>
     match getNameOwnerOf s c d with
     | .error e => .error e
@@ -358,6 +359,28 @@ def runL (s : State) : List HStep → Except Err (State × List HOut)
       match runL s1 hs with
       | .error e => .error e
       | .ok (s2, os) => .ok (s2, o :: os)
+
+/-! ## What a router that keeps its own copy of the heads must be told (C14's `owners` table) -/
+
+/-- The well-known names whose owner an operation may change: the requested / released name; for a
+disconnect the names of the connection's own table (the loop of `clientDisconnected`). -/
+def changedNames (s : State) : Op → List Name
+  | .request _ n _ => [n]
+  | .release _ n => [n]
+  | .disconnect c =>
+    match Dict.get? s.clients c with
+    | some t => Dict.keys t
+    | none => []
+  | _ => []
+
+/-- The change of the head of one queue between `s` and `s'`: nothing, a new owner, or no owner. -/
+def ownerChange (s s' : State) (n : Name) : List (Name × Option Conn) :=
+  if routerLookup s' (.wellKnown n) = routerLookup s (.wellKnown n) then []
+  else [(n, routerLookup s' (.wellKnown n))]
+
+/-- The owner changes of one operation, in the order of `changedNames` (driver command `e`). -/
+def ownerChanges (s s' : State) (op : Op) : List (Name × Option Conn) :=
+  (changedNames s op).flatMap (ownerChange s s')
 
 /-! ## Client side: `DBusClientConnection.requestBusName` -/
 
